@@ -17,7 +17,8 @@ Record obs := {
 }.
 
 Definition item := (call * outcome * list event * obs)%type.
-Record trace := { t_cfg : cfg; t_univ : list addr; t_start : Z; t_items : list item }.
+(* [t_init] is the observation taken at genesis, before the first call *)
+Record trace := { t_cfg : cfg; t_univ : list addr; t_start : Z; t_init : obs; t_items : list item }.
 
 Definition pairs (univ : list addr) : list pkey := list_prod univ univ.
 
@@ -96,17 +97,79 @@ Fixpoint diff_from (c : cfg) (univ : list addr) (s : state) (items : list item) 
       if ok then diff_from c univ s' r (N.succ i) else N.succ i
   end.
 
-Definition diff (t : trace) : N := diff_from (t_cfg t) (t_univ t) (init (t_start t)) (t_items t) 0%N.
+Definition diff (t : trace) : N :=
+  if obs_eqb (t_init t) (observe (t_cfg t) (t_univ t) (init (t_start t)))
+  then diff_from (t_cfg t) (t_univ t) (init (t_start t)) (t_items t) 0%N
+  else 1%N.
 
-(* Persistence: the passage of time alone (an Advance) changes none of the flavour's extra getters
-   (list flags, voting units / delegation, vault asset balances, RWA freezes / pause).  Skipped when there
-   is no previous observation of them (first call of a trace, or a flavour without extras). *)
-Definition is_nilZ (l : list Z) : bool := match l with [] => true | _ => false end.
-Definition advance_keeps_extras (prev cur : obs) (cl : call) (out : outcome) : bool :=
-  match cl, out with
-  | Advance _, Ok _ => is_nilZ (o_extra prev) || list_eqb Z.eqb (o_extra cur) (o_extra prev)
-  | _, _ => true
+(* ------------------------------------------------------------------------- *)
+(* Clauses shared by the C01 and C02 monitors.  They make the monitors stand on their own: the shape
+   of every observation is checked (not assumed), every address a call names must be observed, the
+   clock moves only by Advance, a failing call and a getter call leave ALL observed state unchanged,
+   time passing alone changes nothing but (possibly) allowances, and the values returned by the public
+   getters total_supply() / balance() / allowance() are the observed ones. *)
+
+(* every address named in the arguments of a call *)
+Definition call_addrs_all (cl : call) : list addr :=
+  match cl with
+  | Advance _ | QSupply | RPause _ => []
+  | Mint a _ | QBalance a | SetListed a _ | AssetMint a _ | RBurn a _ | RFreeze a _ | RUnfreeze a _ | RSetFrozen a _
+  | Burn _ a _ => [a]
+  | Transfer _ a b _ _ | QAllowance a b | Delegate _ a b | RForcedTransfer a b _ | RRecover a b | RSetRecovery a b
+  | Approve _ a b _ _ | AssetApprove _ a b _ _ | BurnFrom _ a b _ => [a; b]
+  | TransferFrom _ a b c _ => [a; b; c]
+  | VDeposit _ _ _ a b c | VMint _ _ _ a b c | VWithdraw _ _ a b c | VRedeem _ _ a b c => [a; b; c]
   end.
+
+Fixpoint nodupb (l : list addr) : bool :=
+  match l with [] => true | a :: r => negb (mem a r) && nodupb r end.
+
+(* shape of one observation: exactly one balance per address of the universe, in order; allowance keys
+   within the universe; nothing negative (a trapped getter is reported as a negative sentinel) *)
+Definition obs_shape_ok (univ : list addr) (o : obs) : bool :=
+  list_eqb N.eqb (map fst (o_bal o)) univ
+  && forallb (fun x => existsb (pkey_eqb (fst x)) (pairs univ)) (o_allow o)
+  && (0 <=? o_supply o)
+  && forallb (fun x => 0 <=? snd x) (o_bal o)
+  && forallb (fun x => 0 <=? fst (fst (snd x))) (o_allow o).
+
+(* genesis: nothing exists yet *)
+Definition genesis_ok (univ : list addr) (start : Z) (o : obs) : bool :=
+  nodupb univ && obs_shape_ok univ o && (o_now o =? start) && (o_supply o =? 0)
+  && forallb (fun x => snd x =? 0) (o_bal o)
+  && match o_allow o with [] => true | _ => false end.
+
+Definition same_all (univ : list addr) (prev cur : obs) : bool :=
+  (o_supply cur =? o_supply prev)
+  && forallb (fun a => bal_of cur a =? bal_of prev a) univ
+  && forallb (fun p => z3_eqb (allow_of cur p) (allow_of prev p)) (pairs univ)
+  && list_eqb Z.eqb (o_extra cur) (o_extra prev).
+
+Definition common_ok (univ : list addr) (prev : obs) (it : item) : bool :=
+  let '(cl, out, evs, cur) := it in
+  obs_shape_ok univ cur
+  && forallb (fun a => mem a univ) (call_addrs_all cl)
+  (* the ledger sequence moves by Advance only *)
+  && (o_now cur =? match cl, out with Advance n, Ok _ => o_now prev + n | _, _ => o_now prev end)
+  && match out with
+     | Fail => same_all univ prev cur && match evs with [] => true | _ => false end
+     | Ok v =>
+         match cl with
+         | Advance _ =>
+             (* time passing alone: balances, supply and the flavour's other state stay (allowances may
+                expire: C02) *)
+             (o_supply cur =? o_supply prev)
+             && forallb (fun a => bal_of cur a =? bal_of prev a) univ
+             && list_eqb Z.eqb (o_extra cur) (o_extra prev)
+         | QSupply => (v =? o_supply cur) && same_all univ prev cur
+         | QBalance a => (v =? bal_of cur a) && same_all univ prev cur
+         | QAllowance o sp => (v =? fst (fst (allow_of cur (o, sp)))) && same_all univ prev cur
+         | _ => true
+         end
+     end.
+
+Definition wf_calls_all (univ : list addr) (cs : list call) : bool :=
+  nodupb univ && forallb (fun cl => forallb (fun a => mem a univ) (call_addrs_all cl)) cs.
 
 (* the trace the model itself produces *)
 Fixpoint model_items (c : cfg) (univ : list addr) (s : state) (cs : list call) : list item :=
@@ -117,4 +180,5 @@ Fixpoint model_items (c : cfg) (univ : list addr) (s : state) (cs : list call) :
       (cl, out, evs, observe c univ s') :: model_items c univ s' r
   end.
 Definition model_trace (c : cfg) (univ : list addr) (start : Z) (cs : list call) : trace :=
-  {| t_cfg := c; t_univ := univ; t_start := start; t_items := model_items c univ (init start) cs |}.
+  {| t_cfg := c; t_univ := univ; t_start := start; t_init := observe c univ (init start);
+     t_items := model_items c univ (init start) cs |}.
